@@ -322,14 +322,19 @@ class URLInfo(object):
 
             parts = [self.scheme, '://']
 
+            raw_username, raw_password = self.parse_userinfo(
+                self.userinfo or '')
+
             if self.username:
-                parts.append(normalize_username(
-                    self.username, encoding=self.encoding or 'utf-8'))
+                parts.append(normalize_userinfo_text(
+                    raw_username, USERNAME_ENCODE_SET,
+                    encoding=self.encoding or 'utf-8'))
 
             if self.password:
                 parts.append(':')
-                parts.append(normalize_password(
-                    self.password, encoding=self.encoding or 'utf-8'))
+                parts.append(normalize_userinfo_text(
+                    raw_password, PASSWORD_ENCODE_SET,
+                    encoding=self.encoding or 'utf-8'))
 
             if self.username or self.password:
                 parts.append('@')
@@ -546,6 +551,25 @@ def normalize_password(text, encoding='utf-8'):
     '''
     path = percent_encode(text, encoding=encoding, encode_set=PASSWORD_ENCODE_SET)
     return uppercase_percent_encoding(path)
+
+
+def normalize_userinfo_text(text, encode_set, encoding='utf-8'):
+    '''Normalize the user name or password as it is written in a URL.
+
+    Octets that are percent-encoded already stay these octets. Decoding
+    them with the document's encoding and encoding the text again gives
+    something else as soon as the normalized URL is parsed without
+    knowing that encoding (``%E9`` became ``%EF%BF%BD``).
+    '''
+    byte_string = urllib.parse.unquote_to_bytes(text.encode(encoding))
+
+    try:
+        mapping = _percent_encoder_map_cache[encode_set]
+    except KeyError:
+        mapping = _percent_encoder_map_cache[encode_set] = PercentEncoderMap(
+            encode_set).__getitem__
+
+    return ''.join([mapping(char) for char in byte_string])
 
 
 class PercentEncoderMap(collections.defaultdict):
